@@ -1,9 +1,171 @@
-/- driver handler of the `tasks` stream (line protocol, see Main.lean) -/
+/- driver handler of the `tasks` stream (line protocol, see Main.lean):
+   tasks <TAB> enc <TAB> "cid" <TAB> "queue"                → ok <TAB> "token"
+   tasks <TAB> dec <TAB> "token"                            → ok <TAB> ["cid","queue"] | ok <TAB> null
+   tasks <TAB> shape <TAB> form <TAB> detail <TAB> in <TAB> out  → ok <TAB> {"outcome":…}
+   tasks <TAB> validate <TAB> form <TAB> parentType <TAB> childType|none → ok <TAB> "Error" | ok <TAB> null
+   tasks <TAB> run <TAB> quirks <TAB> "replyQueue" <TAB> [ops]   → ok <TAB> {"log":…,"pending":…,"cancellers":…,"api":…} -/
 import AslModel.Drv.Util
+import AslModel.Tasks
 namespace Asl.Drv.Tasks
-open Asl
+open Asl Asl.Drv Asl.Tasks
+
+def S (s : String) : Str := s.toList
+
+def form? (s : String) : Option Form :=
+  match s with
+  | "async" => some .async
+  | "sync" => some .sync
+  | "sync2" => some .sync2
+  | "token" => some .token
+  | "sdkSync" => some .sdkSync
+  | _ => none
+
+def mtype? (s : String) : Option MType :=
+  match s with
+  | "STANDARD" => some .standard
+  | "EXPRESS" => some .express
+  | _ => none
+
+def str? : Json → Option Str
+  | .str s => some s
+  | _ => none
+
+def int? : Json → Option Int
+  | .num n => some n
+  | _ => none
+
+def decDetail (j : Json) : Option Detail :=
+  match (j.get "executionArn").bind str?, (j.get "name").bind str?, (j.get "stateMachineArn").bind str?,
+        (j.get "status").bind str?, (j.get "input").bind str?, j.get "output",
+        (j.get "startDate").bind int?, (j.get "stopDate").bind int? with
+  | some a, some n, some m, some st, some i, some o, some sd, some ed =>
+    let out : Option (Option Str) := match o with
+      | .str s => some (some s)
+      | .null => some none
+      | _ => none
+    match out with
+    | none => none
+    | some out =>
+      let failure := match j.get "error", j.get "cause" with
+        | some e, some c => some (e, c)
+        | some e, none => some (e, .null)
+        | _, _ => none
+      some { executionArn := a, name := n, stateMachineArn := m, status := st, input := i, output := out,
+             startDate := sd, stopDate := ed, failure := failure }
+  | _, _, _, _, _, _, _, _ => none
+
+def viaText : Via → String
+  | .launch => "launch" | .reply => "reply" | .callback => "callback"
+  | .childEnd => "childEnd" | .timeout => "timeout" | .cancel => "cancel" | .waitCancel => "waitCancel"
+
+def outcomeJ : Outcome → Json
+  | .ok v => .obj [(S "outcome", .str (S "ok")), (S "value", v)]
+  | .err n c => .obj [(S "outcome", .str (S "err")), (S "name", .str n), (S "cause", c)]
+
+def completionJ (c : Completion) : Json :=
+  .obj [(S "owner", .str c.owner), (S "key", .str c.key), (S "via", .str (S (viaText c.via))),
+        (S "result", outcomeJ c.outcome)]
+
+def decOp : Json → Option Op
+  | .arr (.str name :: args) =>
+    match String.ofList name, args with
+    | "launch", [.str e, .str x, .str pt, .str f, ct, .str arn, si] =>
+      let cm : Option (Option MType) := match ct with
+        | .null => some none
+        | .str t => (mtype? (String.ofList t)).map some
+        | _ => none
+      match mtype? (String.ofList pt), form? (String.ofList f), cm with
+      | some pt, some f, some cm => some (.launch ⟨e, x, pt, f, cm, arn⟩ si)
+      | _, _, _ => none
+    | "rpc", [.str k, .str e, .str x] =>
+      (match String.ofList k with
+       | "fn" => some RpcKind.fn | "invoke" => some .invoke | "token" => some .token | _ => none).map
+        (fun k => .rpc k e x)
+    | "wait", [.str e, .str x] => some (.wait e x)
+    | "reply", [.str cid, cb, body] =>
+      (match cb with
+       | .null => some none | .bool b => some (some b) | _ => (none : Option (Option Bool))).map
+        (fun cb => .reply cid cb body)
+    | "childEnd", [.str arn, det, i, o] => (decDetail det).map (fun d => .childEnd arn d i o)
+    | "timeout", [.str cid] => some (.timeout cid)
+    | "cancel", [.str e] => some (.cancel e)
+    | "send", [.str tok, .bool s, body] => some (.send tok s body)
+    | _, _ => none
+  | _ => none
+
+def decOps : List Json → Option (List Op)
+  | [] => some []
+  | j :: js => match decOp j, decOps js with
+    | some o, some os => some (o :: os)
+    | _, _ => none
+
+def decQuirks (j : Json) : Option Quirks :=
+  match j.get "inBandCallbackError", j.get "statelessTokens" with
+  | some (.bool a), some (.bool b) => some { inBandCallbackError := a, statelessTokens := b }
+  | _, _ => none
+
+def respJ : ApiResp → Json
+  | .ok => .str (S "ok")
+  | .invalidToken => .str (S "InvalidToken")
+
+/-- run, collecting the API answers (and the queue published to) of the `send` operations -/
+def runApi (q : Quirks) : Disp → List Op → Disp × List Json
+  | d, [] => (d, [])
+  | d, op :: rest =>
+    let api : List Json := match op with
+      | .send tok s body =>
+        let r := sendTask q d tok s body
+        [.obj [(S "resp", respJ r.1), (S "queue", match r.2.2 with | some x => .str x | none => .null)]]
+      | _ => []
+    let r := runApi q (step q d op) rest
+    (r.1, api ++ r.2)
+
+/-- the model reads base64 strictly; Python's decoder skips foreign characters: leave those to the harness -/
+def b64Plain (s : Str) : Bool :=
+  let body := s.reverse.dropWhile (· = '=')
+  (s.length - body.length ≤ 2) && body.all (fun c => (b64Val c).isSome)
 
 def handle : List String → String
+  | ["enc", c, q] =>
+    match rd c, rd q with
+    | some (.str c), some (.str q) => "ok\t" ++ js (.str (encodeToken c q))
+    | _, _ => "unsupported"
+  | ["dec", t] =>
+    match rd t with
+    | some (.str t) =>
+      if !b64Plain t then "unsupported"
+      else match decodeToken t with
+        | some (c, q) => "ok\t" ++ js (.arr [.str c, .str q])
+        | none => "ok\tnull"
+    | _ => "unsupported"
+  | ["shape", f, det, i, o] =>
+    match form? f, (rd det).bind decDetail, rd i, rd o with
+    | some f, some d, some i, some o => "ok\t" ++ js (outcomeJ (childOutcome f d i o))
+    | _, _, _, _ => "unsupported"
+  | ["validate", f, pt, ct] =>
+    match form? f, mtype? pt with
+    | some f, some pt =>
+      let cm : Option (Option MType) := if ct = "none" then some none else (mtype? ct).map some
+      match cm with
+      | some cm =>
+        (match validate ⟨[], [], pt, f, cm, []⟩ with
+         | some e => "ok\t" ++ js (.str e)
+         | none => "ok\tnull")
+      | none => "unsupported"
+    | _, _ => "unsupported"
+  | ["run", q, rq, ops] =>
+    match (rd q).bind decQuirks, rd rq, rd ops with
+    | some q, some (.str rq), some (.arr ops) =>
+      match decOps ops with
+      | some ops =>
+        let r := runApi q { replyQueue := rq } ops
+        "ok\t" ++ js (.obj [(S "log", .arr (r.1.log.map completionJ)),
+                           (S "pending", .arr (r.1.pending.map (fun p => Json.str p.1))),
+                           (S "cancellers", .arr (r.1.cancellers.map (fun p => Json.str p.1))),
+                           (S "started", .arr (r.1.started.map (fun p => Json.arr [.str p.1, .bool p.2]))),
+                           (S "api", .arr r.2)])
+      | none => "unsupported"
+    | _, _, _ => "unsupported"
   | _ => "bad-op"
 
 end Asl.Drv.Tasks
